@@ -28,7 +28,7 @@ ASSUMPTIONS = [
     "produced arrays = arrays whose zarr.json was written during the computation",
     "Zarr's own incidental read of an edge chunk is not a cubed-level read-modify-write and does not decide",
 ]
-NSHARDS = {"quick": 16, "thorough": 32}
+NSHARDS = {"quick": 16, "thorough": 16}
 PER_SHARD = {"quick": 80, "thorough": 480}
 
 
@@ -338,10 +338,10 @@ def finalize(tier, merged):
     return {
         "rule": RULE,
         "floors": [
-            ("stored-chunk writes attributed to tasks", c.get("chunk_sets", 0), 15000 if tier == "quick" else 150000),
-            ("produced arrays whose grid coverage was checked", c.get("arrays_checked", 0), 2500 if tier == "quick" else 25000),
-            ("direct rechunks planned with >= 3 copy operations (two or more stages)", c.get("multi_stage_rechunks", 0), 60 if tier == "quick" else 400),
-            ("block writes into user-supplied store targets observed", c.get("target_block_writes", 0), 1500 if tier == "quick" else 15000),
+            ("stored-chunk writes attributed to tasks", c.get("chunk_sets", 0), 15000 if tier == "quick" else 75000),
+            ("produced arrays whose grid coverage was checked", c.get("arrays_checked", 0), 2500 if tier == "quick" else 12500),
+            ("direct rechunks planned with >= 3 copy operations (two or more stages)", c.get("multi_stage_rechunks", 0), 60 if tier == "quick" else 200),
+            ("block writes into user-supplied store targets observed", c.get("target_block_writes", 0), 1500 if tier == "quick" else 7500),
         ],
         "assumptions": ASSUMPTIONS,
     }
